@@ -1,7 +1,7 @@
 (** Dispatcher of executable models: property id -> run function.
     [run prop ops] maps each harness operation of a case to the model's
     canonical output tokens. *)
-From Ferrous Require Import Base.Bytes Model.Resp Model.RunBase Model.RunSrv Model.RunC04 Model.RunPubSub Model.RunScan Model.RunLua Model.RunBlk Model.RunAof.
+From Ferrous Require Import Base.Bytes Model.Resp Model.RunBase Model.RunSrv Model.RunC04 Model.RunPubSub Model.RunScan Model.RunLua Model.RunBlk Model.RunAof Model.RunRdb.
 Open Scope Z_scope.
 
 Definition run (prop : bytes) (ops : list (list tok)) : list (list tok) :=
@@ -20,4 +20,5 @@ Definition run (prop : bytes) (ops : list (list tok)) : list (list tok) :=
     end
   else if beq prop (bs "C19") then run_c19 ops
   else if beq prop (bs "C13") then run_c13 ops
+  else if beq prop (bs "C09") || beq prop (bs "C10") then run_rdb ops
   else [[TB (bs "NOMODEL")]].
